@@ -7,11 +7,14 @@
     (equal strings = equal numbers); sizes by their index in the case's size list; [hash]
     is the real [hash(image.rendered_size)] observed for each size.
 
-    [check_fault] / [check_url]: resource observations (descriptor counts, temp-file
-    counts, survival of the caller's PIL image, size / seek position kept) against the
-    expected values — these facts depend on Pillow, the OS and CPython's reference
-    counting and are NOT consequences of any theorem: the comparison is evaluated here
-    only so that every verdict of the check is computed in one place. *)
+    [check_fault] / [check_url]: resource observations against the expected values.  What
+    the skeleton theorems (props/C11.v, PART 2) predict is that no image the library opened
+    is left without a call of Image.close() when the operation returns or raises, at every
+    fault position (code 1 otherwise).  Descriptor counts, temp-file counts, survival of the
+    caller's PIL image, size / seek position kept are the property's own observables
+    (code 2); they depend on Pillow, the OS and CPython and are NOT consequences of any
+    theorem: the comparison is evaluated here only so that every verdict of the check is
+    computed in one place. *)
 From Coq Require Import List ZArith Bool Arith.
 Import ListNotations.
 From TI Require Import model.ImgIter model.ImgIterSpec.
